@@ -84,6 +84,7 @@ from collections.abc import Mapping
 from contextlib import contextmanager
 from copy import deepcopy
 from filecmp import cmpfiles, dircmp
+from functools import partial
 from multiprocessing.pool import ThreadPool
 
 from ._utility import _query_yes_no, _safe_relpath
@@ -489,6 +490,23 @@ class DocSync:
                     logger.more("Skipped keys: {}".format(", ".join(self.skipped_keys)))
 
 
+def _ignore_excluded(exclude, keep=(), root=None):
+    """Return a copytree ``ignore`` function that skips all names matching exclude.
+
+    The names in keep are never skipped in the directory root.
+    """
+
+    def ignore(path, names):
+        kept = keep if path == root else ()
+        return [
+            fn
+            for fn in names
+            if fn not in kept and any(re.match(p, fn) for p in exclude)
+        ]
+
+    return ignore
+
+
 def _sync_job_workspaces(
     src, dst, strategy, exclude, copy, copytree, recursive=True, deep=False, subdir=""
 ):
@@ -507,7 +525,7 @@ def _sync_job_workspaces(
         if os.path.isfile(fn_src):
             copy(fn_src, fn_dst)
         elif recursive:
-            copytree(fn_src, fn_dst)
+            copytree(fn_src, fn_dst, ignore=_ignore_excluded(exclude or []))
         else:
             logger.warning(f"Skip directory '{fn_src}'.")
     for fn in diff.diff_files:
@@ -851,10 +869,18 @@ def sync_projects(
     logger.more(f"Synchronizing {N} jobs.")
     count = ddict(int)
 
+    if exclude is None:
+        patterns = []
+    else:
+        patterns = list(exclude) if isinstance(exclude, list) else [exclude]
+
     def _clone_or_sync(src_job):
         """Clone a job if it does not exist, or sync if it exists."""
         try:
-            destination.clone(src_job, copytree=proxy.copytree)
+            # Excluded files are not cloned either; the state point and the document always are.
+            keep = (src_job.FN_STATE_POINT, src_job.FN_DOCUMENT)
+            ignore = _ignore_excluded(patterns, keep=keep, root=src_job.path)
+            destination.clone(src_job, copytree=partial(proxy.copytree, ignore=ignore))
             logger.more(f"Cloned job '{src_job}'.")
             return 1
         except DestinationExistsError:
